@@ -389,3 +389,8 @@ func (s *Scheduler) VerifSource(cfg *JobConfiguration) (source.Source, error) {
 func (s *Scheduler) VerifSetJobToken(jobID, token string) error {
 	return s.Store.StoreObject(server.JobDataIndex, jobID, &SyncJobState{ID: jobID, ContinuationToken: token})
 }
+
+// ClearResult removes the stored run result of the job (so that the next run has to store one).
+func (h *VerifHandledJob) ClearResult() {
+	_ = h.s.Store.DeleteObject(server.JobResultIndex, h.j.id)
+}
